@@ -245,3 +245,7 @@ package join
 //@   requires [*] allocatable: opts.JoinSize < two63
 //@   modifies gClock
 //@   ensures [*] result1 == nil ==> result0 != nil
+
+// C16, rule SB: every blocking operation of the goroutine is a select with both stop cases.
+//@ stoprule (*Discipline).main
+//@ stop roles dsc.breaker.IsBreaked() dsc.opts.Ctx.Done()
